@@ -1,6 +1,8 @@
 import EosProofs.Lemmas.MicroLegal
 import EosProofs.Lemmas.MicroAssembly
 import EosProofs.Lemmas.MicroExec
+import EosProofs.Lemmas.MicroTeardown
+import EosProofs.Lemmas.MicroBuffTable
 /-! # C01, layer 2 — the message handlers of the calculation service keep the attribute cache coherent
 
 `EosProofs/Props/C01.lean` (layer 1) shows that *any* history of reads and mutations whose removal sets are
@@ -22,8 +24,15 @@ Hypotheses and where they are used:
 * `StaticAt` before and after the step (`StaticAround`) — third clause of `Legal` (absence of a dependency's
   value is stable) for load / unload / start / stop / apply / unapply;
 * K1 side conditions (`StepOK`: the loaded / unloaded item is not a recorded projection target) — load, unload;
-* no hypothesis about buffs appears because the message-level model has no fleet-boost re-registration at
-  all (`WorldMicro.lean` header): the theorems are about universes used without warfare-buff effects;
+* no hypothesis about buffs: the warfare-buff modifiers of a fleet-boost effect are message payload
+  (`Dyn.bspecs`, replaced by `MStep.buffset`, whose side condition in `StepOK` is that the projector has no
+  recorded targets at that moment), and `projMods` ignores payload that is not an instance of one of the
+  universe's buff templates (`bspecOK`), so ranks grow along `rdeps` in every dynamic state.  Everything up to
+  `micro_incremental_eq_scratch` holds for universes *with* warfare-buff effects (`micro_rebuff_legal` and the
+  example after it run one).  The join to the from-scratch table is `world_read_eq_table_buff`: the final
+  state is `BuffSettled` (the derived state plus, for every running boost, the payload and the recorded targets
+  the specification computes from the table; `Lemmas/MicroBuffTable.lean`), and no fleet-boost effect is also
+  projectable (`hnp`); `world_read_eq_table` is its instance for universes without buff effects;
 * acyclicity of `deps` (`hacyc`) is *not* used here; it is a field of the graphs `W c`. -/
 namespace Eos.C01World
 open Eos.World Eos.Micro Eos.Micro.L Eos.DepCache Eos.Machine
@@ -53,8 +62,8 @@ theorem cascade_closed (cfg : Config) (d : Dyn) (hwf : rankWF u = true) (hun : U
 hypothesis of C01's layer 1): the new registers together with the set of entries the handler removes, and
 the handler does nothing to the cache but remove that set.
 Uses: `Ties`; `rankWF`, `UniqueAttrs` (cascade fuel); `ResistWF` and the `MInv` fields (coverage);
-`StepOK` (K1 for load / unload, no recorded targets for start / stop, the stated invisibility for reconfig);
-`StaticAround` (load, unload, start, stop, apply, unapply only). -/
+`StepOK` (K1 for load / unload, no recorded targets for start / stop / buffset, the stated invisibility for
+reconfig); `StaticAround` (load, unload, start, stop, apply, unapply only). -/
 theorem micro_step_legal (T : Ties u immune limited pen keep W) (hwf : rankWF u = true) (hun : UniqueAttrs u)
     (hR : ResistWF u) {s : MState} (inv : MInv W s) (st : MStep) (ok : StepOK W s st)
     (hsa : StaticAround u W s st) :
@@ -129,7 +138,75 @@ example : rankWF tinyU = true ∧ UniqueAttrs tinyU ∧ ResistWF tinyU ∧ Uniqu
 
 /-! ## The incrementally maintained cache agrees with the from-scratch table -/
 
-/-- **Headline: after any message history that ends in a settled state, every read returns the entry of the
+/-- **Headline, universes with fleet boosts: after any message history that ends in a settled state, every
+read returns the entry of the specification's table** `World.evalAll` — the table the driver computes from
+scratch and the differential run compares the real code with.  `worldGraph` is the graph family of the
+message-level model (override nodes — skill levels — are not dependencies: the real code never caches them).
+
+Hypotheses, in terms of the property's quantifier:
+* `hwf : rankWF u` — the attribute dependencies of the universe are acyclic (listed in rank order);
+* `hun : UniqueAttrs u` — attribute ids are unique;
+* `hR : ResistWF u` — resistance attributes only on effects with projected (`domain = 4`) modifiers;
+* `hnp` — a fleet-boost effect is not at the same time a projectable (category 2) effect; *no* "no buff
+  effects" hypothesis;
+* `hU, hC, hT` — the initial configuration has unique item ids, charges sit in modules of their own fit,
+  recorded projection targets are ships / drones / fighters (each is kept by every step);
+* `ok : WRunOKE …` — every event is taken under its side conditions: reads fill dependency-closed sets;
+  messages satisfy `StepOK` (K1: a loaded / unloaded item is not a recorded projection target; effects are
+  started before they are applied and unapplied before they are stopped; warfare-buff modifiers are replaced
+  while the projector has no recorded targets; an item is loaded with nothing of it cached and none of its
+  effects running) and *non-zero divisors*: no attribute calculation of the state before and after a load /
+  unload / start / stop / apply / unapply ends in a division by zero (`ErrorFree`, which discharges
+  `StaticAround`); level changes satisfy `RelevelOK`;
+* `hset : BuffSettled …` — the history ends in a settled state: exactly the effects the specification selects
+  run, ordinary projectable effects are applied to the items' current targets (`derivedDyn` on these), and for
+  every running fleet boost the registered warfare-buff modifiers are (a permutation of) the specification's
+  `buffModifiers` computed from the table and — unless the projector has no projected modifier at all — the
+  recorded targets are (a permutation of) the ships the specification boosts (`BuffPayloadOK`; the
+  correspondence check compares exactly this with the real service after every public call, driver command
+  `QB`);
+* `hnz` — non-zero divisors for the final configuration: the table has no `divZero` entry.
+Conclusion: for every configured item and attribute with metadata, what a read observes (the cached value
+if there is one, a fresh calculation otherwise) is `World.read` of the table. -/
+theorem world_read_eq_table_buff (hwf : rankWF u = true) (hun : UniqueAttrs u) (hR : ResistWF u)
+    (hnp : ∀ e ∈ u.effects, e.isBuff = true → e.category ≠ 2)
+    {cfg : Config} {d : Dyn} (hU : UniqueIds cfg) (hC : ChargeWF cfg)
+    (hT : TgtKinds cfg d) (steps : List WStep)
+    (ok : WRunOKE u immune limited pen (worldGraph u immune limited pen hwf) ⟨cfg, d, fun _ => none⟩ steps)
+    (sF : MState) (hF : wrun u (worldGraph u immune limited pen hwf) ⟨cfg, d, fun _ => none⟩ steps = sF)
+    (hset : BuffSettled u sF.cfg immune limited pen sF.dyn)
+    (hnz : ∀ entry ∈ evalAll u sF.cfg immune limited pen, entry.2 ≠ .divZero)
+    {x : Item} (hx : x ∈ sF.cfg.items) {am : AttrMeta} (ham : am ∈ u.attrs) :
+    observe (worldGraph u immune limited pen hwf) (toState sF) (x.id, am.id) =
+      valToOption (World.read (evalAll u sF.cfg immune limited pen) x am.id) := by
+  subst hF
+  have T := worldGraph_ties (immune := immune) (limited := limited) (pen := pen) hwf
+  have okW := wrunOK_of_errorFree T steps _ ok
+  rw [micro_read_eq_spec T hwf hun hR hU hC hT steps okW]
+  exact settled_spec_eq_table_buff hwf hun (micro_inv_run T hwf hun hR hU hC hT steps okW).uniq hnp hnz hset hx ham
+
+/-- The same with "non-zero divisors" of the final state stated like that of the states passed through
+(`ErrorFree` of the settled state); the table then has no `divZero` at the entries read. -/
+theorem world_read_eq_table_buff_of_errorFree (hwf : rankWF u = true) (hun : UniqueAttrs u) (hR : ResistWF u)
+    (hnp : ∀ e ∈ u.effects, e.isBuff = true → e.category ≠ 2)
+    {cfg : Config} {d : Dyn} (hU : UniqueIds cfg) (hC : ChargeWF cfg)
+    (hT : TgtKinds cfg d) (steps : List WStep)
+    (ok : WRunOKE u immune limited pen (worldGraph u immune limited pen hwf) ⟨cfg, d, fun _ => none⟩ steps)
+    (sF : MState) (hF : wrun u (worldGraph u immune limited pen hwf) ⟨cfg, d, fun _ => none⟩ steps = sF)
+    (hset : BuffSettled u sF.cfg immune limited pen sF.dyn)
+    (hef : ErrorFree u immune limited pen (worldGraph u immune limited pen hwf) sF.cfg sF.dyn)
+    {x : Item} (hx : x ∈ sF.cfg.items) {am : AttrMeta} (ham : am ∈ u.attrs) :
+    observe (worldGraph u immune limited pen hwf) (toState sF) (x.id, am.id) =
+      valToOption (World.read (evalAll u sF.cfg immune limited pen) x am.id) ∧
+    World.read (evalAll u sF.cfg immune limited pen) x am.id ≠ .divZero := by
+  subst hF
+  have T := worldGraph_ties (immune := immune) (limited := limited) (pen := pen) hwf
+  have okW := wrunOK_of_errorFree T steps _ ok
+  rw [micro_read_eq_spec T hwf hun hR hU hC hT steps okW]
+  exact settled_spec_eq_table_buff_of_errorFree hwf hun (micro_inv_run T hwf hun hR hU hC hT steps okW).uniq hnp
+    hset hef hx ham
+
+/-- **Headline, universes without buff effects (instance of `world_read_eq_table_buff`): after any message history that ends in a settled state, every read returns the entry of the
 specification's table** `World.evalAll` — the table the driver computes from scratch and the differential
 run compares the real code with.  `worldGraph` is the graph family of the message-level model (override
 nodes — skill levels — are not dependencies: the real code never caches them).
@@ -138,7 +215,7 @@ Hypotheses, in terms of the property's quantifier:
 * `hwf : rankWF u` — the attribute dependencies of the universe are acyclic (listed in rank order);
 * `hun : UniqueAttrs u` — attribute ids are unique;
 * `hR : ResistWF u` — resistance attributes only on effects with projected (`domain = 4`) modifiers;
-* `hb` — no warfare-buff effects (fleet boosts are outside the message-level layer);
+* `hb` — no warfare-buff effects (then `derivedDyn` is `BuffSettled`: `buffSettled_derived`);
 * `hU, hC, hT` — the initial configuration has unique item ids, charges sit in modules of their own fit,
   recorded projection targets are ships / drones / fighters (each is kept by every step);
 * `ok : WRunOKE …` — every event is taken under its side conditions: reads fill dependency-closed sets;
@@ -161,12 +238,9 @@ theorem world_read_eq_table (hwf : rankWF u = true) (hun : UniqueAttrs u) (hR : 
     (hnz : ∀ entry ∈ evalAll u sF.cfg immune limited pen, entry.2 ≠ .divZero)
     {x : Item} (hx : x ∈ sF.cfg.items) {am : AttrMeta} (ham : am ∈ u.attrs) :
     observe (worldGraph u immune limited pen hwf) (toState sF) (x.id, am.id) =
-      valToOption (World.read (evalAll u sF.cfg immune limited pen) x am.id) := by
-  subst hF
-  have T := worldGraph_ties (immune := immune) (limited := limited) (pen := pen) hwf
-  have okW := wrunOK_of_errorFree T steps _ ok
-  rw [micro_read_eq_spec T hwf hun hR hU hC hT steps okW, hset]
-  exact settled_spec_eq_table hb hwf hun (micro_inv_run T hwf hun hR hU hC hT steps okW).uniq hnz hx ham
+      valToOption (World.read (evalAll u sF.cfg immune limited pen) x am.id) :=
+  world_read_eq_table_buff hwf hun hR (fun e he h => by rw [hb e he] at h; cases h) hU hC hT steps ok sF hF
+    (hset ▸ buffSettled_derived hb) hnz hx ham
 
 /-- The same with "non-zero divisors" of the final state stated like that of the states passed through
 (`ErrorFree` of the settled state); the table then has no `divZero` at the entries read. -/
@@ -180,13 +254,9 @@ theorem world_read_eq_table_of_errorFree (hwf : rankWF u = true) (hun : UniqueAt
     {x : Item} (hx : x ∈ sF.cfg.items) {am : AttrMeta} (ham : am ∈ u.attrs) :
     observe (worldGraph u immune limited pen hwf) (toState sF) (x.id, am.id) =
       valToOption (World.read (evalAll u sF.cfg immune limited pen) x am.id) ∧
-    World.read (evalAll u sF.cfg immune limited pen) x am.id ≠ .divZero := by
-  subst hF
-  have T := worldGraph_ties (immune := immune) (limited := limited) (pen := pen) hwf
-  have okW := wrunOK_of_errorFree T steps _ ok
-  rw [micro_read_eq_spec T hwf hun hR hU hC hT steps okW]
-  rw [hset] at hef ⊢
-  exact settled_spec_eq_table_of_errorFree hb hwf hun (micro_inv_run T hwf hun hR hU hC hT steps okW).uniq hef hx ham
+    World.read (evalAll u sF.cfg immune limited pen) x am.id ≠ .divZero :=
+  world_read_eq_table_buff_of_errorFree hwf hun hR (fun e he h => by rw [hb e he] at h; cases h) hU hC hT steps ok
+    sF hF (hset ▸ buffSettled_derived hb) hef hx ham
 
 /-- Attributes without metadata: a read observes no value in any reachable state, and the table's read is
 absent (except that `World.read` answers a skill's level from the item even when attribute 280 has no
@@ -236,7 +306,8 @@ registers equal, the table's look-up function equal to the model's cache: `tblFu
 as well, provided the registers mention only configured items and effects of their types (`DynFin`: true of the
 empty registers the driver starts from, and of every output of `compactDyn`) and the message does (`StepFin`:
 `ItemLoaded` of a configured item, `EffectsStarted` of effects of the item's type, `EffectApplied` of such an
-effect; a new configuration still contains what the registers mention); `DynFin` is kept. -/
+effect, warfare-buff modifiers registered for such an effect; a new configuration still contains what the
+registers mention); `DynFin` is kept. -/
 theorem driver_step_refines (s : TState) (st : MStep) :
     (mstepT u s st).toM = mstep u s.toM st ∧
     (DynFin u s.cfg s.dyn → StepFin u s.cfg s.dyn st →
@@ -254,8 +325,10 @@ registers. -/
 theorem driver_compact_id (cfg : Config) (d : Dyn) {x : Item} (hx : x ∈ cfg.items) :
     (compactDyn u cfg d).loaded x.id = d.loaded x.id ∧
     ∀ e ∈ effsOf u x, (compactDyn u cfg d).on x.id e = d.on x.id e ∧
-      (compactDyn u cfg d).tgts x.id e = d.tgts x.id e :=
-  ⟨compactDyn_loaded_of_mem hx, fun _ he => ⟨compactDyn_on_of_mem hx he, compactDyn_tgts_of_mem hx he⟩⟩
+      (compactDyn u cfg d).tgts x.id e = d.tgts x.id e ∧
+      (compactDyn u cfg d).bspecs x.id e = d.bspecs x.id e :=
+  ⟨compactDyn_loaded_of_mem hx, fun _ he =>
+    ⟨compactDyn_on_of_mem hx he, compactDyn_tgts_of_mem hx he, compactDyn_bspecs_of_mem hx he⟩⟩
 
 /-- **What a public read of the driver returns is the from-scratch value.**  State satisfying the invariant
 `MInv` (cache coherent and dependency-closed for `worldGraph`, unique item ids, …), rank-well-formed universe,
@@ -325,7 +398,8 @@ example : DynFin tinyU tinyS.cfg tinyS.dyn ∧ StepFin tinyU tinyS.cfg tinyS.dyn
     tblFun [((0, 2), (7 : Rat))] (0, 2) = some 7 ∧
     tblFun (mdoT tinyU ⟨tinyS.cfg, tinyS.dyn, [((0, 2), 7)]⟩ (.start 0 [100])).tbl (0, 2) = none := by
   have hD : DynFin tinyU tinyS.cfg tinyS.dyn := by
-    refine ⟨fun i h => ⟨_, List.mem_cons_self, ?_⟩, fun i e h => (by cases h), fun i e h => absurd rfl h⟩
+    refine ⟨fun i h => ⟨_, List.mem_cons_self, ?_⟩, fun i e h => (by cases h), fun i e h => absurd rfl h,
+      fun i e h => absurd rfl h⟩
     have : i = 0 := by simpa [tinyS] using h
     exact this.symm
   have hS : StepFin tinyU tinyS.cfg tinyS.dyn (.start 0 [100]) := by
@@ -360,5 +434,268 @@ example : (readStepT settleU specImmune specLimited (fun _ => 1) ⟨settleCfg, s
   have he := (running_mem (specsOn_mem hsp).2.1).1
   simp only [settleU, List.mem_cons, List.not_mem_nil, or_false] at he
   rcases he with he | he <;> rw [he] at hr <;> cases hr
+
+/-! ## Fleet boosts at message level -/
+
+/-- **Fleet boosts: (re-)registration of warfare buffs is a legal history.**  When a fleet-boost effect `e` of
+item `i` starts, or one of its buff attributes changes, the service un-applies the effect from its recorded
+targets, rebuilds its warfare-buff modifiers (`buffset`: message payload `ms`, whatever it is) and applies
+the effect to the ships `ts` of the fleet (`rebuff`).  From any state satisfying the invariant these three
+messages are taken under their side conditions — the `buffset` finds no recorded targets because of the
+un-apply before it; the hypotheses are those of the `EffectApplied` (targets are solar-system items) and
+non-zero divisors around the un-apply and the apply — the invariant holds afterwards, the projector has
+exactly the new modifiers and targets registered, and every read returns the from-scratch value of the new
+registers.  No hypothesis excludes buff effects from the universe. -/
+theorem micro_rebuff_legal (T : Ties u immune limited pen keep W) (hwf : rankWF u = true) (hun : UniqueAttrs u)
+    (hR : ResistWF u) {s : MState} (inv : MInv W s) (i : Nat) (e : Int) (ms : List Modifier) (ts : List Nat)
+    (hts : ∀ j ∈ ts, ∀ t, item? s.cfg j = some t → t.kind.isSolsys = true)
+    (hst1 : StaticAround u W s (.unapply i e (s.dyn.tgts i e)))
+    (hst3 : StaticAround u W (rebuffMid u s i e ms) (.apply i e ts)) :
+    WRunOK u W s ((rebuff s i e ms ts).map .micro) ∧
+    MInv W (wrun u W s ((rebuff s i e ms ts).map .micro)) ∧
+    (wrun u W s ((rebuff s i e ms ts).map .micro)).dyn.bspecs i e = ms ∧
+    (wrun u W s ((rebuff s i e ms ts).map .micro)).dyn.tgts i e = ts ∧
+    ∀ n, observe W (toState (wrun u W s ((rebuff s i e ms ts).map .micro))) n =
+      spec (W ((wrun u W s ((rebuff s i e ms ts).map .micro)).cfg,
+        (wrun u W s ((rebuff s i e ms ts).map .micro)).dyn)) n :=
+  have hinv := rebuff_inv T ((rankWF_iff u).1 hwf) hun hR inv i e ms ts hts hst1 hst3
+  have hd := rebuff_dyn (u := u) (W := W) s i e ms ts
+  ⟨rebuff_ok s i e ms ts hts hst1 hst3, hinv, hd.2.2.2.1, hd.2.2.2.2.1, fun n => observe_eq_spec W _ hinv.good n⟩
+
+/-! ### Non-vacuity: a history with a running fleet boost
+
+`buffU` has a warfare-buff effect (2000, `isBuff := true`, no modifiers of its own) on a module type and one buff
+template (buff 10: +value % on attribute 37 of the boosted ship).  History `buffHist`: the effect starts; the
+ship's attribute 37 is read (100, cached); the service registers the buff — un-apply from no targets,
+`buffset` with the one modifier built from the template (source: buff value attribute 2469 = 25 of the
+module), apply to the ship —, which removes the cached entry; the next read returns 125. -/
+
+def buffU : Universe :=
+  { attrs := [⟨2469, none, none, true, true⟩, ⟨37, none, none, true, true⟩],
+    effects := [⟨2000, 1, none, none, true, []⟩],
+    types := [⟨1, none, some 6, none, [(37, 100)], [], []⟩, ⟨2, none, some 7, none, [(2469, 25)], [2000], []⟩],
+    buffs := [⟨10, 1, none, 37, 9, 1⟩] }
+def buffShip : Item := ⟨1, .ship, 1, 0, 1, none, none, none, []⟩
+def buffCfg : Config :=
+  { hasSource := true, fits := [⟨0, some 1, none, none⟩],
+    items := [buffShip, ⟨2, .moduleHigh, 2, 0, 3, none, none, none, []⟩] }
+def buffD0 : Dyn := { loaded := fun i => i == 1 || i == 2, on := fun _ _ => false, tgts := fun _ _ => [] }
+def buffS0 : MState := ⟨buffCfg, buffD0, fun _ => none⟩
+def buffMod : Modifier := ⟨1, 4, none, 37, 9, 1, some 10, 2469⟩
+abbrev buffW : Config × Dyn → Graph Node Rat := worldGraph buffU specImmune specLimited (fun _ => 1) (by decide)
+def buffHist : List WStep :=
+  [.micro (.start 2 [2000]), .read fun n => n == (1, 37),
+   .micro (.unapply 2 2000 []), .micro (.buffset 2 2000 [buffMod]), .micro (.apply 2 2000 [1]),
+   .read fun n => n == (1, 37) || n == (2, 2469)]
+
+/-- The payload is an instance of the template (`projMods` ignores anything else), and the middle of the
+history is the `rebuff` of the theorem above. -/
+example : bspecOK buffU buffMod = true := by decide
+example : buffHist = [.micro (.start 2 [2000]), .read fun n => n == (1, 37)] ++
+    (rebuff (wrun buffU buffW buffS0 (buffHist.take 2)) 2 2000 [buffMod] [1]).map .micro ++
+    [.read fun n => n == (1, 37) || n == (2, 2469)] := rfl
+
+theorem buff_wf : rankWF buffU = true ∧ UniqueAttrs buffU ∧ ResistWF buffU ∧ UniqueIds buffCfg ∧
+    ChargeWF buffCfg ∧ TgtKinds buffCfg buffD0 := by
+  refine ⟨by decide, by unfold UniqueAttrs; decide, ?_, by unfold UniqueIds; decide, ?_, ?_⟩
+  · intro e he r hr
+    simp only [buffU, List.mem_singleton] at he
+    subst he; cases hr
+  · intro x hx hk
+    simp only [buffCfg, buffShip, List.mem_cons, List.not_mem_nil, or_false] at hx
+    rcases hx with rfl | rfl <;> cases hk
+  · intro a e t ht
+    simp [targetsOf, buffD0] at ht
+
+/-- Both reads of the history fill dependency-closed sets: before the boost is applied `(ship, 37)` reads
+nothing, afterwards it reads the booster's buff value attribute `(module, 2469)`. -/
+theorem buff_readLegal (k : Nat) (s : MState) (hc : s.cfg = buffCfg)
+    (hd : s.dyn = (wrun buffU buffW buffS0 (buffHist.take k)).dyn) (S : Node → Bool)
+    (hS : (k = 1 ∧ S = fun n => n == (1, 37)) ∨ (k = 5 ∧ S = fun n => n == (1, 37) || n == (2, 2469))) :
+    Legal buffW (toState s) (.read S) := by
+  intro n hn m hm _
+  have : (toState s).cfg = (buffCfg, (wrun buffU buffW buffS0 (buffHist.take k)).dyn) := by
+    show (s.cfg, s.dyn) = _; rw [hc, hd]
+  rw [this] at hm
+  rcases hS with ⟨rfl, rfl⟩ | ⟨rfl, rfl⟩
+  · have hn' : n = (1, 37) := by simpa using hn
+    subst hn'
+    have : (buffW (buffCfg, (wrun buffU buffW buffS0 (buffHist.take 1)).dyn)).deps (1, 37) = [] := by
+      decide +kernel
+    rw [this] at hm; cases hm
+  · have hdeps : ∀ n, (n == ((1 : Nat), (37 : Int)) || n == (2, 2469)) = true →
+        ∀ m ∈ (buffW (buffCfg, (wrun buffU buffW buffS0 (buffHist.take 5)).dyn)).deps n, m = (2, 2469) := by
+      intro n hn
+      simp only [Bool.or_eq_true, beq_iff_eq] at hn
+      rcases hn with rfl | rfl <;> decide +kernel
+    left
+    rw [hdeps n hn m hm]; rfl
+
+/-- Every event of the history is taken under its side conditions. -/
+theorem buff_runOK : WRunOKE buffU specImmune specLimited (fun _ => 1) buffW buffS0 buffHist := by
+  refine ⟨⟨?_, fun _ => ⟨?_, ?_⟩⟩, ?_, ⟨trivial, fun _ => ⟨?_, ?_⟩⟩, ⟨?_, fun h => by cases h⟩,
+    ⟨?_, fun _ => ⟨?_, ?_⟩⟩, ?_, trivial⟩
+  · intro e _; rfl
+  all_goals first
+    | exact buff_readLegal 1 _ rfl rfl _ (Or.inl ⟨rfl, rfl⟩)
+    | exact buff_readLegal 5 _ rfl rfl _ (Or.inr ⟨rfl, rfl⟩)
+    | (unfold ErrorFree; decide +kernel)
+    | rfl
+    | (intro j hj t ht
+       rw [List.mem_singleton.1 hj] at ht
+       cases ht; rfl)
+
+/-- The history satisfies the hypotheses of `micro_inv_run` for a universe with a buff effect; the entry
+cached before the boost (100) is removed by the `EffectApplied`, and the read after it caches 125. -/
+example : (∃ e ∈ buffU.effects, e.isBuff = true) ∧
+    MInv buffW (wrun buffU buffW buffS0 buffHist) ∧
+    (wrun buffU buffW buffS0 (buffHist.take 2)).cache (1, 37) = some 100 ∧
+    (wrun buffU buffW buffS0 (buffHist.take 5)).cache (1, 37) = none ∧
+    (wrun buffU buffW buffS0 buffHist).cache (1, 37) = some 125 ∧
+    (wrun buffU buffW buffS0 buffHist).dyn.bspecs 2 2000 = [buffMod] ∧
+    (wrun buffU buffW buffS0 buffHist).dyn.tgts 2 2000 = [1] := by
+  have T := worldGraph_ties (u := buffU) (immune := specImmune) (limited := specLimited) (pen := fun _ => 1)
+    (by decide)
+  obtain ⟨hwf, hun, hR, hU, hC, hT⟩ := buff_wf
+  have ok := wrunOK_of_errorFree T _ _ buff_runOK
+  have ok5 : WRunOK buffU buffW buffS0 (buffHist.take 5) :=
+    ⟨ok.1, ok.2.1, ok.2.2.1, ok.2.2.2.1, ok.2.2.2.2.1, trivial⟩
+  refine ⟨by decide, micro_inv_run T hwf hun hR hU hC hT _ ok, by decide +kernel, ?_, by decide +kernel, by decide +kernel,
+    by decide +kernel⟩
+  -- the `EffectApplied` removed the entry: it only removes entries, and a surviving `100` would contradict
+  -- coherence with the from-scratch value `125` of the new registers
+  have inv5 := micro_inv_run T hwf hun hR hU hC hT _ ok5
+  have hspec : spec (buffW ((wrun buffU buffW buffS0 (buffHist.take 5)).cfg,
+      (wrun buffU buffW buffS0 (buffHist.take 5)).dyn)) (1, 37) = some 125 := by decide +kernel
+  have sub : Cascade.Sub (wrun buffU buffW buffS0 (buffHist.take 2)).cache
+      (wrun buffU buffW buffS0 (buffHist.take 5)).cache :=
+    ((mstep_sub (u := buffU) (wrun buffU buffW buffS0 (buffHist.take 2)) (.unapply 2 2000 [])).trans
+      (mstep_sub (u := buffU) _ (.buffset 2 2000 [buffMod]))).trans (mstep_sub (u := buffU) _ (.apply 2 2000 [1]))
+  rcases sub (1, 37) with h | h
+  · exact h
+  · have h100 : (wrun buffU buffW buffS0 (buffHist.take 2)).cache (1, 37) = some 100 := by decide +kernel
+    have := (inv5.good.coh (1, 37) 100 (h.trans h100)).symm.trans hspec
+    exact absurd this (by decide +kernel)
+
+/-! ### Non-vacuity of `world_read_eq_table_buff`: a legal history that ends in a `BuffSettled` state
+
+The fleet of `Lemmas/MicroBuffTable.lean` (`fleetU`, `fleetCfg`: fit 0 with ship 1 and a boosting module 2,
+fit 1 with ship 3, same fleet; the module's buff id attribute selects the template "attribute 37 of the boosted
+ship × buff value 3/2").  History `fleetHist` from the state "everything loaded, nothing running, nothing
+cached": the boost effect starts; the service registers the buff (un-apply from no targets, `buffset` with the
+modifier built from the template, apply to both ships); a read of ship 3's attribute 37.  The end state
+satisfies `BuffSettled` — the hypothesis is met by a state a legal history reaches —, and the read observes
+the table's entry, 100 · 3/2 = 150. -/
+
+def fleetBM : Modifier := ⟨1, 4, none, 37, 6, 1, some 10, 2469⟩
+def fleetD0 : Dyn :=
+  { loaded := (derivedDyn fleetU fleetCfg).loaded, on := fun _ _ => false, tgts := fun _ _ => [] }
+def fleetS0 : MState := ⟨fleetCfg, fleetD0, fun _ => none⟩
+abbrev fleetW : Config × Dyn → Graph Node Rat := worldGraph fleetU specImmune specLimited fleetPen (by decide)
+def fleetHist : List WStep :=
+  [.micro (.start 2 [2000]), .micro (.unapply 2 2000 []), .micro (.buffset 2 2000 [fleetBM]),
+   .micro (.apply 2 2000 [1, 3]), .read fun n => n == (3, 37) || n == (2, 2469)]
+
+theorem fleet_wf : rankWF fleetU = true ∧ UniqueAttrs fleetU ∧ ResistWF fleetU ∧ UniqueIds fleetCfg ∧
+    ChargeWF fleetCfg ∧ TgtKinds fleetCfg fleetD0 := by
+  refine ⟨by decide, by unfold UniqueAttrs; decide, ?_, by unfold UniqueIds; decide, ?_, ?_⟩
+  · intro e he r hr
+    simp only [fleetU, List.mem_singleton] at he
+    subst he; cases hr
+  · intro x hx hk
+    simp only [fleetCfg, fleetShip1, fleetMod, fleetShip3, List.mem_cons, List.not_mem_nil, or_false] at hx
+    rcases hx with rfl | rfl | rfl <;> cases hk
+  · intro a e t ht
+    simp [targetsOf, fleetD0] at ht
+
+theorem fleet_readLegal (s : MState) (hc : s.cfg = fleetCfg)
+    (hd : s.dyn = (wrun fleetU fleetW fleetS0 (fleetHist.take 4)).dyn) :
+    Legal fleetW (toState s) (.read fun n => n == (3, 37) || n == (2, 2469)) := by
+  intro n hn m hm _
+  have : (toState s).cfg = (fleetCfg, (wrun fleetU fleetW fleetS0 (fleetHist.take 4)).dyn) := by
+    show (s.cfg, s.dyn) = _; rw [hc, hd]
+  rw [this] at hm
+  have hdeps : ∀ n, (n == ((3 : Nat), (37 : Int)) || n == (2, 2469)) = true →
+      ∀ m ∈ (fleetW (fleetCfg, (wrun fleetU fleetW fleetS0 (fleetHist.take 4)).dyn)).deps n, m = (2, 2469) := by
+    intro n hn
+    simp only [Bool.or_eq_true, beq_iff_eq] at hn
+    rcases hn with rfl | rfl <;> decide +kernel
+  left
+  rw [hdeps n hn m hm]; rfl
+
+/-- Every event of the history is taken under its side conditions. -/
+theorem fleet_runOK : WRunOKE fleetU specImmune specLimited fleetPen fleetW fleetS0 fleetHist := by
+  refine ⟨⟨?_, fun _ => ⟨?_, ?_⟩⟩, ⟨trivial, fun _ => ⟨?_, ?_⟩⟩, ⟨?_, fun h => by cases h⟩,
+    ⟨?_, fun _ => ⟨?_, ?_⟩⟩, ?_, trivial⟩
+  · intro e _; rfl
+  all_goals first
+    | exact fleet_readLegal _ rfl rfl
+    | (unfold ErrorFree; decide +kernel)
+    | rfl
+    | (intro j hj t ht
+       simp only [List.mem_cons, List.not_mem_nil, or_false] at hj
+       rcases hj with rfl | rfl <;> (cases ht; rfl))
+
+theorem fleet_item1 : item? fleetCfg 1 = some fleetShip1 := rfl
+theorem fleet_item2 : item? fleetCfg 2 = some fleetMod := rfl
+theorem fleet_item3 : item? fleetCfg 3 = some fleetShip3 := rfl
+theorem fleet_itemN {i : Nat} (h1 : i ≠ 1) (h2 : i ≠ 2) (h3 : i ≠ 3) : item? fleetCfg i = none := by
+  simp [item?, fleetCfg, fleetShip1, fleetMod, fleetShip3]; omega
+
+/-- **The end state of the history is `BuffSettled`**: loaded items and running effects as the specification
+derives them, the registered modifier is the specification's `buffModifiers` of the module (from the table),
+the recorded targets are the two ships of the fleet. -/
+theorem fleet_hset : BuffSettled fleetU (wrun fleetU fleetW fleetS0 fleetHist).cfg specImmune specLimited fleetPen
+    (wrun fleetU fleetW fleetS0 fleetHist).dyn := by
+  show BuffSettled fleetU fleetCfg specImmune specLimited fleetPen (wrun fleetU fleetW fleetS0 fleetHist).dyn
+  have r1 : runningEffects fleetU fleetCfg fleetShip1 = [] := by decide +kernel
+  have r2 : runningEffects fleetU fleetCfg fleetMod = [⟨2000, 1, none, none, true, []⟩] := by rfl
+  have r3 : runningEffects fleetU fleetCfg fleetShip3 = [] := by decide +kernel
+  refine BuffSettled.intro rfl ?_ ?_ ?_
+  · show (fun j e => if j = 2 ∧ e ∈ [2000] then true else false) = _
+    funext j e
+    by_cases h1 : j = 1
+    · subst h1
+      have : runningIds fleetU fleetCfg fleetShip1 = [] := by decide +kernel
+      simp [derivedDyn, fleet_item1, this]
+    · by_cases h2 : j = 2
+      · subst h2
+        have : runningIds fleetU fleetCfg fleetMod = [2000] := by decide +kernel
+        simp [derivedDyn, fleet_item2, this]
+      · by_cases h3 : j = 3
+        · subst h3
+          have : runningIds fleetU fleetCfg fleetShip3 = [] := by decide +kernel
+          simp [derivedDyn, fleet_item3, this]
+        · simp [derivedDyn, fleet_itemN h1 h2 h3, h2]
+  · intro a ha e he hbf
+    simp only [fleetCfg, List.mem_cons, List.not_mem_nil, or_false] at ha
+    rcases ha with rfl | rfl | rfl
+    · rw [r1] at he; cases he
+    · rw [r2] at he; simp only [List.mem_cons, List.not_mem_nil, or_false] at he; subst he; cases hbf
+    · rw [r3] at he; cases he
+  · intro a ha e he _
+    simp only [fleetCfg, List.mem_cons, List.not_mem_nil, or_false] at ha
+    rcases ha with rfl | rfl | rfl
+    · rw [r1] at he; cases he
+    · rw [r2] at he; simp only [List.mem_cons, List.not_mem_nil, or_false] at he; subst he
+      refine ⟨⟨[fleetBM], by decide +kernel, List.Perm.of_eq (by decide +kernel)⟩, Or.inr ?_⟩
+      have : boostTargets fleetCfg fleetMod.fit = [fleetShip1, fleetShip3] := by rfl
+      rw [this]; exact List.Perm.of_eq (by decide +kernel)
+    · rw [r3] at he; cases he
+
+/-- `fleetHist` satisfies every hypothesis of `world_read_eq_table_buff` — in a universe with a buff effect —,
+and the read of the boosted ship of the *other* fit observes the table's entry. -/
+example : observe fleetW (toState (wrun fleetU fleetW fleetS0 fleetHist)) (3, 37) =
+    valToOption (World.read (evalAll fleetU fleetCfg specImmune specLimited fleetPen) fleetShip3 37) :=
+  world_read_eq_table_buff (by decide) fleet_wf.2.1 fleet_wf.2.2.1 (by decide) fleet_wf.2.2.2.1
+    fleet_wf.2.2.2.2.1 fleet_wf.2.2.2.2.2 fleetHist fleet_runOK _ rfl fleet_hset (by decide +kernel)
+    (x := fleetShip3) (List.mem_cons_of_mem _ (List.mem_cons_of_mem _ List.mem_cons_self))
+    (am := ⟨37, none, none, true, true⟩) (List.mem_cons_of_mem _ (List.mem_cons_of_mem _ List.mem_cons_self))
+
+example : (∃ e ∈ fleetU.effects, e.isBuff = true) ∧
+    observe fleetW (toState (wrun fleetU fleetW fleetS0 fleetHist)) (3, 37) = some 150 ∧
+    World.read (evalAll fleetU fleetCfg specImmune specLimited fleetPen) fleetShip3 37 = .ok 150 ∧
+    (wrun fleetU fleetW fleetS0 fleetHist).cache (3, 37) = some 150 := by
+  refine ⟨by decide, by decide +kernel, by decide +kernel, by decide +kernel⟩
 
 end Eos.C01World
